@@ -5,10 +5,17 @@ MOD = "github.com/SebastienMelki/sebuf"
 COMMON_OVERLAY = {
     "internal/zzverif/verif.go": "harness/zzverif/verif.go",
     "internal/zzverif/desc.go": "harness/zzverif/desc.go",
+    "internal/zzverif/http.go": "harness/zzverif/http.go",
     "internal/clientgen/zz_verif_export.go": "harness/export/clientgen_export.go",
     "internal/tsclientgen/zz_verif_export.go": "harness/export/tsclientgen_export.go",
     "internal/tsservergen/zz_verif_export.go": "harness/export/tsservergen_export.go",
     "internal/openapiv3/zz_verif_export.go": "harness/export/openapiv3_export.go",
+}
+
+COMMON_OVERLAY_E = {
+    "zzverif/verif.go": "harness/zzverif/verif.go",
+    "zzverif/desc.go": "harness/zzverif/desc.go",
+    "zzverif/http.go": "harness/zzverif/http.go",
 }
 
 DEFAULT_INIT = [MOD + "/http"] + [MOD + "/internal/" + p for p in
@@ -25,6 +32,19 @@ COMMON_ASSUMPTIONS = [
 G_HTTPGEN = dict(mode="G", load_pkgs=["./internal/httpgen"], pkgpath=MOD + "/internal/httpgen",
                  test_pkg="./internal/httpgen", test_pkgname="httpgen")
 
+def E_BINDING(**kw):
+    d = dict(mode="E", schemas=[dict(name="binding", run="go,go-http")], load_pkgs=["./gen/binding"], pkgpath="verifmod/gen/binding",
+             test_pkg="./gen/binding", test_pkgname="binding", init=[MOD + "/http", "verifmod/gen/binding"])
+    d.update(kw)
+    return d
+
+
+E_ASSUMPTIONS = [
+    "the emitted Go code is regenerated on every run by the real plugin binaries built from /repo's working tree (schema family: see coverage.regenerated)",
+    "buf.build/go/protovalidate is replaced by a stub module (the runtime is not on this image): claims hold for any behaviour of the rule validator",
+    "net/http Header/Request/ResponseWriter, io.ReadAll and context are models (see library_models_used); real sockets and ServeMux internals are outside the claim",
+]
+
 PROPERTIES = {
     "C03": dict(G_HTTPGEN,
                 overlay={"internal/httpgen/zz_verif_c03.go": "harness/c03/c03_routes.go"},
@@ -38,4 +58,12 @@ PROPERTIES = {
                 },
                 assumptions=["base paths containing {variables} are outside the property's quantifier",
                              "Go package name fixed to 'userpb', proto package 'acme.v1' (only the default-path rule reads them; that rule is a listed known finding)"]),
+    "C09": E_BINDING(
+        overlay={"gen/binding/zz_verif_c09.go": "harness/c09/c09_headers.go"},
+        harnesses=[dict(func="VerifC09Merge", reach=["C09/merge-decided", "C09/kf-override"], quick=dict(budget=300), thorough=dict(budget=1200)),
+                   dict(func="VerifC09Value", reach=["C09/value-decided", "C09/kf-uuid", "C09/undecided-by-reference"], quick=dict(budget=300, parts=8), thorough=dict(budget=1200, parts=8))],
+        bounds_text={"quick": "Merge: 1-2 service-level + 1 method-level declaration, method name in {same, 2 case variants, different}, required flags and presence symbolic, values printable ASCII <= 4. "
+                              "Value: one required header, type in 7 x format in 7 (incl. unknown ones), declared at service or method level, value printable ASCII <= 6 (uuid additionally: any 36 characters as 8+1+4+1+4+1+4+1+12 symbolic groups, and any 37 characters)"},
+        assumptions=E_ASSUMPTIONS + ["formats date-time/date/time: time.Parse is stubbed with an arbitrary result, only their dispatch is covered",
+                                     "type number: reference decides only plain decimals (must pass) and strings with characters outside [-+0-9a-zA-Z._] (must fail)"]),
 }
